@@ -9,7 +9,7 @@ META = {
     "level": "proof",
     "technique": "Coq proofs over Gaussian rationals (wire-cut identity with PennyLane's measure/prepare tables, single cut with environments of any size, k parallel cuts by tensor induction, contraction independent of operand/index order) + correspondence: the implementation's qcut_processing_fn against the Gallina contraction model on the real communication graphs, and the real cut_circuit pipeline against an exact Coq-simulated uncut reference",
     "design_ref": "DESIGN.md §3 C24",
-    "text": "Theorems (Props/C24.v, closed under the global context): every 2x2 matrix is 1/2 sum_P tr(P rho) P; each Pauli is the CHANGE_OF_BASIS combination of the four prepared states |0>,|1>,|+>,|+i> and the PREPARE_SETTINGS circuits produce exactly those states; for upstream/downstream fragments with environments of ANY size and arbitrary operators the executable contraction model (the one compared with the implementation) applied to the two fragments' results equals the uncut expectation; k parallel cuts between two fragments for all k; the contraction does not depend on the order of fragments or of index assignments; the eight cut_circuit_mc settings resolve the identity channel with weights +-1/2. Tie on every run: (a) CHANGE_OF_BASIS, PREPARE_SETTINGS, MC tables exported from /repo equal the model's; (b) cut_circuit (raw tape transform) on generated circuits of 3-6 wires with 1-3 WireCuts (also two-wire WireCuts, ineffective cuts, disconnected pieces) and KaHyPar-placed cuts: the returned communication graph / prepare_nodes / measure_nodes plus random dyadic fragment results are evaluated by the implementation's qcut_processing_fn and by the Gallina model inside Coq (vm_compute); (c) every configuration tape prepares / measures the setting its position in the result vector stands for (4^prep x 3^meas tapes, product order, partition_pauli_group grouping), decoded semantically from the tapes; (d) fragment tapes are simulated EXACTLY in Coq (Q(zeta_8)), the exact expectation values are fed to the implementation's post-processing and must equal the exact uncut expectation (1e-9); (e) the full QNode pipeline on default.qubit (Pauli words and sums, manual and automatic cuts) equals the exact uncut value (1e-9); (f) cut_circuit_mc: 6-sigma bound with the exactly known single-shot variance 16^K - mu^2 on random single-cut circuits and a designed GHZ case, plus a direct probe that the measurements of one single-shot fragment tape come from one joint shot (numeric/statistical only). On the pinned tree (f) FAILS: default.qubit samples sample(Projector) and sample(Pauli) measurements of a tape independently, so cut_circuit_mc is biased; reported under the stable key finding:cut_circuit_mc-samples-not-joint.",
+    "text": "Theorems (Props/C24.v, closed under the global context): every 2x2 matrix is 1/2 sum_P tr(P rho) P; each Pauli is the CHANGE_OF_BASIS combination of the four prepared states |0>,|1>,|+>,|+i> and the PREPARE_SETTINGS circuits produce exactly those states; for upstream/downstream fragments with environments of ANY size and arbitrary operators the executable contraction model (the one compared with the implementation) applied to the two fragments' results equals the uncut expectation; k parallel cuts between two fragments for all k; the contraction does not depend on the order of fragments or of index assignments; the eight cut_circuit_mc settings resolve the identity channel with weights +-1/2. Tie on every run: (a) CHANGE_OF_BASIS, PREPARE_SETTINGS, MC tables exported from /repo equal the model's; (b) cut_circuit (raw tape transform) on generated circuits of 3-6 wires with 1-3 WireCuts (also two-wire WireCuts, ineffective cuts, disconnected pieces) and KaHyPar-placed cuts: the returned communication graph / prepare_nodes / measure_nodes plus random dyadic fragment results are evaluated by the implementation's qcut_processing_fn and by the Gallina model inside Coq (vm_compute); (c) every configuration tape prepares / measures the setting its position in the result vector stands for (4^prep x 3^meas tapes, product order, partition_pauli_group grouping), decoded semantically from the tapes; (d) fragment tapes are simulated EXACTLY in Coq (Q(zeta_8)), the exact expectation values are fed to the implementation's post-processing and must equal the exact uncut expectation (1e-9); (e) the full QNode pipeline on default.qubit (Pauli words and sums, manual cuts, KaHyPar-placed cuts, and a fixed corpus of callable auto_cutter cases whose cut edges join gates adjacent in the tape, the first two operations, or both wires of consecutive two-qubit gates, placed by place_wire_cuts) equals the exact uncut value (1e-9); (f) cut_circuit_mc: 6-sigma bound with the exactly known single-shot variance 16^K - mu^2 on random single-cut circuits and a designed GHZ case, plus a direct probe that the measurements of one single-shot fragment tape come from one joint shot (numeric/statistical only). On the pinned tree (f) FAILS: default.qubit samples sample(Projector) and sample(Pauli) measurements of a tape independently, so cut_circuit_mc is biased; reported under the stable key finding:cut_circuit_mc-samples-not-joint.",
     "note": "Trusted: Coq kernel; exactsim post-processing (numpy on exact amplitudes); the harness' extraction of edge/axis incidence from node uids. Modelled, not proved from source: the per-tensor factors 2^(-n/2) are represented by their rational total (1/2)^cuts; the einsum symbol allocation loop of contract_tensors is specified (one summed index per edge), not transcribed; partition_pauli_group's order is an oracle read from the tapes and compared with an independent enumeration. Not covered by proof: general multi-fragment topologies (sequential cuts, cycles) are validated per generated instance by (b),(d),(e) only; the automatic cutter is an oracle (any cut it returns is checked through (b),(e)); cut_circuit_mc only statistically; gradients and interfaces other than numpy are not exercised; use_opt_einsum=True only through every third pipeline case (numeric); WireCut inside nested templates (max_depth expansion) not generated.",
     "assumptions": ["default.qubit float error below 1e-9 for <= 6 wires"],
     "trusted": ["harness/exactsim.py post-processing", "translator harness/qx.py (gate matrices to exact constants)"],
@@ -242,8 +242,9 @@ def _run(ctx, sess, payload):
             nontriv += 1
         if abs(a["dq"] - ex) > 1e-9:
             ctx.violation(key_of("auto:", [a["ops"], a["terms"], a["devw"]]),
-                          {"n": a["n"], "ops": a["ops"], "terms": a["terms"], "device_wires": a["devw"], "cut_circuit_auto": a["dq"], "exact_uncut": ex},
-                          what="cut_circuit(auto_cutter=True) differs from the exact uncut expectation value")
+                          {"n": a["n"], "ops": a["ops"], "terms": a["terms"], "device_wires": a["devw"], "cut_circuit_auto": a["dq"], "exact_uncut": ex,
+                           "auto_cutter": a.get("cutter", "True (KaHyPar)"), "cuts_placed": a.get("k")},
+                          what="cut_circuit(auto_cutter=%s) differs from the exact uncut expectation value" % ("<callable>" if "cutter" in a else "True"))
         if a["maxw"] > a["devw"]:
             ctx.violation(key_of("auto-width:", [a["ops"], a["terms"], a["devw"]]), {"n": a["n"], "ops": a["ops"], "device_wires": a["devw"], "widest_fragment": a["maxw"]},
                           what="the automatic cutter returned a fragment wider than the device")
@@ -308,6 +309,15 @@ def _run(ctx, sess, payload):
         for f in mc_fail:
             ctx.violation(key_of("mc:", [f["ops"], f["seed"], f["shots"]]), f,
                           what="cut_circuit_mc estimate is more than 6 sigma from the exact uncut expectation (statistical check)")
+    sp = post.get("settings_probe")
+    if sp:
+        N = sp["draws"]
+        sig = math.sqrt(N * (1 / 8) * (7 / 8))
+        if sp["outside_0_7"] or N != 4000 or any(abs(x - N / 8) > 6 * sig for x in sp["counts"]):
+            ctx.violation("mc-settings-not-uniform", {"histogram_over_settings_0_to_7": sp["counts"], "draws": N, "six_sigma": 6 * sig,
+                                                      "reproduce": "qcut.expand_fragment_tapes_mc(fragment_tapes, communication_graph, shots=800, seed=s)[1] for s in range(5)"},
+                          what="expand_fragment_tapes_mc does not draw the 8 measure/prepare settings uniformly (the estimator's weights assume it)")
+        ctx.coverage["mc_settings_histogram"] = sp["counts"]
     ctx.coverage["mc_joint_sampling_probe"] = probe
     ctx.coverage["mc_estimates_outside_six_sigma"] = len(mc_fail)
     npy = ctx.coverage.pop("_npy", 0)
@@ -320,7 +330,7 @@ def _run(ctx, sess, payload):
         "distinct_nontrivial": nontriv,
         "rule": "model contraction = qcut_processing_fn on rational fragment results; exact fragment results -> implementation post-processing = exact uncut; pipeline = exact uncut; settings decoded from tapes",
         "input_distribution": {"manual_cases": len(ok), "auto_cases": len(okauto), "auto_no_cut_found": sum(a["status"] == "nocut" for a in auto),
-                               "auto_effective_cuts": [a.get("k") for a in okauto],
+                               "auto_effective_cuts": [a.get("k") for a in okauto], "auto_callable_cutter_corpus_cases": sum("cutter" in a for a in okauto),
                                "not_extractable": sum(c["status"] == "notex" for c in cases + auto),
                                "effective_cuts_histogram(per Pauli term)": hist, "sum_observables": sum(len(c["terms"]) > 1 for c in ok), "opt_einsum_pipeline_cases": sum("pipeline_opt" in c for c in ok),
                                "fragments_max": max([len(st["frags"]) for c in ok for st in c["t"]] or [0]),
